@@ -56,3 +56,14 @@ def run(chk, repo):
     chk.rule("C04-T6", "parsed containers reach the pipelines in the assumed shape (to_dict contract) and the leader is parsed with sar_leader_record and transformed by transform_metadata", 4)
     to_dict_contract(chk, repo, "C04-T6")
     parse_and_transform(chk, repo, "C04-T6", "ceos_alos2.sar_leader.io", "sar_leader_record", "transform_metadata", "open_sar_leader")
+    chk.attempt(opener_contents, chk, repo)
+
+
+def opener_contents(chk, repo):
+    """C04-T8: open_sar_leader evaluated with recording stubs: it returns what transform_metadata built from the parsed bytes of the
+    leader file, whatever the values are and whatever the file is called"""
+    from .common_rules import opener_eval
+    cases = [("typical values", {"scene_id": "ALOS2014410750-140829", "n_rows": 7, "ellipsoid": "GRS80"}), ("blank fields", {"scene_id": "", "n_rows": -1, "ellipsoid": ""}),
+             ("values of another scene", {"scene_id": "ALOS2099990000-200101", "n_rows": 0, "ellipsoid": "x" * 16})]
+    opener_eval(chk, repo, "C04-T8", "ceos_alos2.sar_leader.io", "transform_metadata", "open_sar_leader", cases,
+                ["LED-ALOS2014410750-140829-WWDR1.5RUA", "leader.bin"])
